@@ -181,3 +181,46 @@ def run_unit(scratch, unit: str, prop: str | None):
         ob.twin = twins.get(fn)
         obligations.append(ob)
     return obligations, info
+
+
+def extraction_selftest(scratch, unit: str):
+    """Thorough tier: the assembled unit must follow the real source. Change one numeric
+    literal inside each extracted body of a throw-away copy and check that the assembled
+    text changes (and only inside that item)."""
+    import shutil
+    unit_path = CONTRACTS / f"{unit}.vunit.rs"
+    base, _log, linemap = extract.assemble(scratch.repo, unit_path)
+    report = []
+    files = sorted({m["file"] for m in linemap})
+    for rel in files:
+        src_path = scratch.repo / rel
+        orig = src_path.read_text()
+        items = [m for m in linemap if m["file"] == rel]
+        for m in items:
+            lines = orig.splitlines(keepends=True)
+            lo = m["src_body_first_line"] - 1
+            hi = lo + (m["out_last_line"] - m["out_body_first_line"]) + 1
+            changed = False
+            for i in range(lo, min(hi, len(lines))):
+                if lines[i].lstrip().startswith(("#[", "//")):
+                    continue   # attributes / comments are dropped by extraction by design
+                mm = re.search(r"(?<![A-Za-z_0-9.])(\d+)(?![A-Za-z_0-9.])", lines[i].split("//")[0])
+                if mm:
+                    n = int(mm.group(1))
+                    lines[i] = lines[i][:mm.start(1)] + str(n + 1) + lines[i][mm.end(1):]
+                    changed = True
+                    break
+            if not changed:
+                report.append({"item": m["item"], "result": "no numeric literal to perturb"})
+                continue
+            src_path.write_text("".join(lines))
+            try:
+                mutated, _l, _m = extract.assemble(scratch.repo, unit_path)
+                ok = mutated != base
+            except Undecided as e:
+                ok = True   # the change was noticed (anchor lost)
+            finally:
+                src_path.write_text(orig)
+            report.append({"item": m["item"], "result": "assembled unit changed" if ok else "NOT REFLECTED"})
+    bad = [r for r in report if r["result"] == "NOT REFLECTED"]
+    return {"unit": unit, "items": report, "ok": not bad}
